@@ -619,8 +619,21 @@ package sio
 //@   modifies *
 //@   callsite (*serverSocket).Join skip           // assumption: the adapter's AddAll does not reach into the socket being built
 //@   callsite GenerateBase64ID skip               // assumption: the id generator does not reach into the socket being built
+// C08 (replay): every missed packet of the restored session is encoded once, from ITS logged header and data, and all
+// the frames of that packet go to the connection in ONE call (a packet with attachments is never split), packet by
+// packet in the order of the list.
+//@   ghost enc int = 0
+//@   ghost sent int = 0
+//@   ghost frames [][]byte = nil
 //@   callsite Encode skip
+//@     requires enc == sent && previousSession != nil && rangeindex == enc && arg0 == previousSession.MissedPackets[rangeindex].Header [C08.replay.encodes.each.missed.packet.in.order]
+//@     update enc = enc + 1
+//@     updateafter frames = result0
 //@   callsite (*serverConn).sendBuffers skip
+//@     requires enc == sent + 1 && arg0 == frames [C08.replay.all.frames.of.a.packet.in.one.call]
+//@     update sent = sent + 1
+//@   loop 0 invariant enc == sent && enc == rangeindex + 1 [C08.replay.inv]
+//@   ensures result1 == nil && previousSession != nil ==> sent == len(previousSession.MissedPackets) [C08.replay.every.missed.packet.sent]
 //@   ensures result1 == nil ==> result0 != nil && result0.recovered == (previousSession != nil) [C12.newsocket.recovered]
 //@   ensures result1 != nil ==> result0 == nil [C12.newsocket.error]
 
@@ -1456,10 +1469,25 @@ package sio
 //@   callsite (*clientSocket).setLastOffset skip
 //@     requires haspid && header.ID == nil && decoded == 1 && len(dec) == len(handler.inputArgs) + 1 && offsets == 0 [C08.client.offset.is.the.extra.value]
 //@     update offsets = offsets + 1
+// ... whether the event is handed to the handler at once or kept until the CONNECT reply has been processed (the
+// replayed packets of a recovered session are exactly the ones that are kept): the decision looks at the extra value
+// only (its kind, the second Kind() asked of it, and its text), never at the connection state.
+//@   ghost nk int = 0
+//@   ghost k2 int = 0
+//@   ghost ns int = 0
+//@   ghost s1 string = ""
 //@   callsite Elem skip
 //@   callsite Kind skip
+//@     update nk = nk + 1
+//@     updateafter k2 = (nk == 2 ? result : k2)
 //@   callsite String skip
+//@     update ns = ns + 1
+//@     updateafter s1 = (ns == 1 ? result : s1)
 //@   callsite onError skip
+//@   ensures decoded == 1 && haspid && header.ID == nil && len(dec) == len(handler.inputArgs) + 1 && nk >= 2 && k2 == 24 && ns >= 1 && s1 != "" ==> offsets == 1 [C08.client.offset.recorded.also.for.buffered.events]
+//@   callsite RLock
+//@     requires (haspid && header.ID == nil && decoded == 1 && len(dec) == len(handler.inputArgs) + 1) ==> nk >= 2 [C08.client.offset.decided.before.the.state.is.read]
+//@   loop 0 invariant (haspid && header.ID == nil && decoded == 1 && len(dec) == len(handler.inputArgs) + 1) ==> nk >= 2
 //@   callsite (*clientSocket).callEvent skip
 //@     requires s.state == clientSocketConnStateConnected [C05.cli.event.only.when.attached]
 //@     requires decoded == 1 && len(arg2) == len(handler.inputArgs) && arr(arg2) == arr(dec) && off(arg2) == off(dec) [C01.client.handler.gets.the.values.decoded.for.its.parameters]
@@ -1735,3 +1763,81 @@ package sio
 //@     update usercalls = usercalls + 1
 //@   ensures usercalls <= 1 && pops <= 1 [C03.retry.one.outcome.handled]
 //@   ensures !(old(len(pq.queuedPackets)) >= 1 && old(pq.queuedPackets[0]) == packet) ==> pops == 0 && usercalls == 0 [C03.retry.stale.outcome.ignored]
+
+// C15 (client, offline delivery): losing the connection - or closing the socket - never touches what is waiting to be
+// sent: the offline buffer is emptied only by emitBuffered (handed over after the next CONNECT) and by the timeout purge.
+//@ func (*clientSocket).onClose
+//@   opt safety off
+//@   requires s != nil
+//@   onstore sendBuffer
+//@     requires false [C15.close.keeps.the.offline.buffer]
+//@   onstore receiveBuffer
+//@     requires false [C15.close.keeps.the.received.buffer]
+// C15 (back-off): the attempt counter starts over after every successful reconnection and after every loss of the
+// connection (so each outage gets the full number of attempts, starting from ReconnectionDelay).
+//@ func (*Manager).onReconnect
+//@   opt safety off
+//@   requires m != nil && m.backoff != nil
+//@   ghost resets int = 0
+//@   callsite (*backoff).attempts skip
+//@   callsite (*backoff).reset skip
+//@     requires recv == m.backoff
+//@     update resets = resets + 1
+//@   callsite forEach skip
+//@   ensures resets == 1 [C15.reconnected.resets.the.backoff]
+//@ func (*Manager).onClose
+//@   opt safety off
+//@   requires m != nil && m.backoff != nil
+//@   ghost resets int = 0
+//@   callsite (*Manager).cleanup skip
+//@   callsite (*backoff).reset skip
+//@     requires recv == m.backoff
+//@     update resets = resets + 1
+//@   callsite forEach skip
+//@   callsite (*Manager).reconnect go
+//@     requires resets == 1 [C15.connection.lost.resets.the.backoff.before.reconnecting]
+//@   ensures resets == 1 [C15.connection.lost.resets.the.backoff]
+
+// C05 (client): an acknowledgement is written to the shared connection only while the namespace is attached - it goes
+// through the same gate as every event (never forced): a late ack for a namespace the client has left would make the
+// server close the whole connection, with every other namespace on it.
+//@ func (*clientSocket).sendAckPacket
+//@   opt safety off
+//@   requires s != nil
+//@   callsite Encode skip
+//@   callsite onError skip
+//@   callsite sendBuffers
+//@     requires !arg0 && !arg1 [C05.cli.ack.never.forced.past.the.gate]
+// C05 (server): Of files a namespace under its name as given, with exactly one leading '/' added when there is none -
+// names that differ in anything else (a trailing or doubled '/') are different namespaces.
+//@ func (*Server).Of
+//@   opt safety off
+//@   requires s != nil && s.namespaces != nil
+//@   callsite (*nspStore).getOrCreate skip
+//@     requires arg0 == ((len(old(namespace)) == 0 || old(namespace)[0] != 47) ? "/" + old(namespace) : old(namespace)) [C05.of.name.as.given]
+//@   callsite forEach skip
+
+// C06 (server-initiated disconnect): Disconnect(false) tells the peer (DISCONNECT packet) and ends this socket with the
+// reason naming the cause; Disconnect(true) first ends EVERY socket of the connection that way (each with its own
+// DISCONNECT packet and the deliberate reason - not a recoverable one) and only then closes the connection.
+//@ func (*serverSocket).Disconnect
+//@   opt safety off
+//@   requires s != nil && s.conn != nil
+//@   ghost all int = 0
+//@   ghost closes int = 0
+//@   ghost told int = 0
+//@   ghost ended int = 0
+//@   callsite (*serverSocket).Connected skip
+//@   callsite (*serverConn).disconnectAll skip
+//@     requires close && recv == s.conn && all == 0 && closes == 0
+//@     update all = all + 1
+//@   callsite (*serverConn).close skip
+//@     requires close && recv == s.conn && all == 1 [C06.disconnect.close.ends.every.namespace.first]
+//@     update closes = closes + 1
+//@   callsite (*serverSocket).sendControlPacket skip
+//@     requires !close && arg0 == parser.PacketTypeDisconnect [C06.disconnect.tells.the.peer]
+//@     update told = told + 1
+//@   callsite (*serverSocket).onClose skip
+//@     requires !close && told == 1 && arg0 == ReasonServerNamespaceDisconnect [C06.disconnect.reason.names.the.cause]
+//@     update ended = ended + 1
+//@   ensures closes == 1 ==> all == 1 [C06.disconnect.close.never.skips.the.siblings]
